@@ -170,12 +170,13 @@ def judge(pid, entries, obs, bad_m, bad_t, verdict):
     for n, c, v in entries:
         if n in bad_m or n in bad_t:
             continue
-        cases = SG.sorted_cases(c)
+        cases = SG.sorted_cases(c, v)
         for o in obs.get(n, []):
             exp = cases[o["k"]]
             if isinstance(o["mv"], dict) and o["mv"].get("t") == "panic":
                 continue
-            records.append({"chain": {"start": c["start"], "items": c["items"]}, "inp": exp["inp"], "v": o["mv"], "calls": o["mcalls"]})
+            records.append({"chain": {"start": c["start"], "items": c["items"]}, "inp": exp["inp"], "v": o["mv"], "calls": o["mcalls"],
+                            "try": SG.try_sem(v) and bool(c.get("tcases"))})
             keys.append((n, o["k"]))
     rejected, unknown = tlc_judge(pid, records)
     tlc_says = {}
@@ -184,7 +185,7 @@ def judge(pid, entries, obs, bad_m, bad_t, verdict):
     for n, c, v in entries:
         if n in bad_m or n in bad_t:
             continue
-        cases = SG.sorted_cases(c)
+        cases = SG.sorted_cases(c, v)
         for o in obs.get(n, []):
             evals += 1
             exp = cases[o["k"]]
